@@ -664,6 +664,82 @@ fn gen_random(out: &mut Out, thorough: bool, seed: u64) {
     }
 }
 
+/// seeded stream of LONG / RARE numerals for every integer type: digit strings of 1..=45 digits
+/// (far beyond every type's width) with and without '-', 0..=30 leading zeros, narrow bands around
+/// 10^k (k up to 44) and around MAX/10, MAX/10*10, MIN/10, MIN/10*10, MAX, MIN, random suffixes
+fn gen_large(out: &mut Out, thorough: bool, seed: u64) {
+    let mut rng = Rng(seed ^ 0xC12_1A26E);
+    let m = if thorough { 10 } else { 1 };
+    let mut n = 0usize;
+    let mut emit = |out: &mut Out, rng: &mut Rng, ty: &str, neg: bool, mag: &str| {
+        // leading zeros: none, a few, many (0..=30)
+        let z = match rng.below(4) {
+            0 | 1 => 0,
+            2 => 1 + rng.below(3) as usize,
+            _ => rng.below(31) as usize,
+        };
+        let f = format!("{}{}{}", if neg { "-" } else { "" }, "0".repeat(z), mag);
+        emit_parse(out, ty, &f);
+        let t = format!("{}{}", f, SUFFIXES[rng.below(SUFFIXES.len() as u64) as usize]);
+        emit_pparse(out, ty, &t);
+        n += 1;
+        if n % 6 == 0 {
+            emit_at(out, ty, n % 12 == 0, rng.below(1000) as usize, &t);
+        }
+        if n % 9 == 0 {
+            emit_pwith(out, ty, &t, n % 18 == 0);
+        }
+    };
+    for ty in INT_TYPES {
+        let bits = bits_of(ty);
+        let signed = ty.starts_with('i');
+        // 1. random digit strings of 1..=45 digits
+        for _ in 0..60 * m {
+            let len = 1 + rng.below(45) as usize;
+            let mut mag = String::new();
+            for i in 0..len {
+                let lo = if i == 0 { 1 } else { 0 };
+                mag.push((b'0' + lo + rng.below(10 - lo as u64) as u8) as char);
+            }
+            let neg = rng.below(3) == 0;
+            emit(out, &mut rng, ty, neg, &mag);
+        }
+        // 2. narrow bands around 10^k
+        for _ in 0..50 * m {
+            let k = 1 + rng.below(44) as usize;
+            let p = format!("1{}", "0".repeat(k));
+            let cneg = rng.below(3) == 0;
+            let (neg, mag) = sadd(cneg, &p, rng.below(7) as i32 - 3);
+            emit(out, &mut rng, ty, neg, &mag);
+        }
+        // 3. bands around MAX/10, MAX/10*10, MIN/10, MIN/10*10, MAX, MIN (and the unsigned twin's)
+        let full = pow2(bits);
+        let half = pow2(bits - 1);
+        let max = dec_sub(if signed { &half } else { &full }, 1).unwrap();
+        let max10 = max[..max.len() - 1].to_string();
+        let min_mag = if signed { half.clone() } else { "0".to_string() };
+        let min10 = if signed { half[..half.len() - 1].to_string() } else { "0".to_string() };
+        let centres: Vec<(bool, String)> = vec![
+            (false, max10.clone()),
+            (false, format!("{}0", max10)),
+            (true, min10.clone()),
+            (true, format!("{}0", min10)),
+            (false, max.clone()),
+            (true, min_mag.clone()),
+            (true, max10.clone()),
+            (false, min10.clone()),
+            (false, dec_sub(&full, 1).unwrap()),
+            (false, full[..full.len() - 1].to_string()),
+        ];
+        for _ in 0..90 * m {
+            let (cneg, cmag) = &centres[rng.below(centres.len() as u64) as usize];
+            let delta = if rng.below(2) == 0 { rng.below(5) as i32 - 2 } else { rng.below(41) as i32 - 20 };
+            let (neg, mag) = sadd(*cneg, cmag, delta);
+            emit(out, &mut rng, ty, neg, &mag);
+        }
+    }
+}
+
 pub fn run(tier: &str, seed: u64, out: &mut Out) {
     // the driver maps usize/isize to 64 bits (registry assumption); anything else is a broken check
     assert_eq!(usize::BITS, 64, "C12: the model instance for usize/isize is the 64-bit one");
@@ -673,4 +749,5 @@ pub fn run(tier: &str, seed: u64, out: &mut Out) {
     gen_neighbourhoods(out, thorough);
     gen_small_values(out, thorough);
     gen_random(out, thorough, seed);
+    gen_large(out, thorough, seed);
 }
